@@ -399,7 +399,7 @@ class Trace:
             elif k == "H":
                 v = [int(x) for x in w[2:]]
                 cur["H"][v[0]] = v[1:]
-            elif k == "D":
+            elif k == "SD":
                 v = [int(x) for x in w[2:]]
                 cur["dump"][v[0]][(v[1], v[2])] = v[3:]
             elif k in ("f", "g", "fb", "gb"):
